@@ -230,6 +230,25 @@ def run_case(case):
             if upd:
                 kw["update"] = True
                 variant.append("update=True")
+            if r.random() < 0.3:
+                # a refused call first (unknown reaction / position outside the space / map of the wrong length), with a map of
+                # its own: it must raise and leave the system's map and state as they were
+                other = np.array([1 - int(bool(c_)) for c_ in chst], dtype=int)
+                badkw = r.choice([dict(reaction="no such reaction", position=pos, chemostats=other),
+                                  dict(reaction=ref_arg, position=n + 3, chemostats=other),
+                                  dict(reaction=ref_arg, position=pos, chemostats=list(other) + [1])])
+                ch_before = np.array(system.chemostats).tobytes()
+                refused = False
+                try:
+                    system.apply_reaction(badkw.pop("reaction"), n=1, **badkw)
+                except Exception:
+                    refused = True
+                cnt("apply_reaction_refused_calls")
+                if np.array(system.chemostats).tobytes() != ch_before or np.array(system.state.value, dtype=float).tobytes() != before.tobytes():
+                    bad.append({"what": "apply_reaction: a refused call changed the system's chemostat map or state", "refused": refused,
+                                "call": {k_: (v_ if isinstance(v_, (int, str)) else "...") for k_, v_ in badkw.items()}, **ctx})
+                    break
+                variant.append("after a refused call")
             new = system.apply_reaction(ref_arg, position=pos, n=nfire, **kw)
             qscale = float(si.QUANTITY[si.sys_of(new.units.sys)[2]])
             after_molecules = np.array(new.value, dtype=float) * qscale
